@@ -24,7 +24,7 @@ OPEN = {
 	'C03': 'Stack depth and running time are runtime behaviour: measured (deep inputs under a lowered recursion limit; long runs with hostile tails under a wall-clock budget in a child interpreter), not proved. zlib, email.header.decode_header and the idna codec are outside the model (`needsOracle`); for those inputs only the oracle on the real code speaks.',
 	'C04': 'Responses: one theorem for the whole message (`response_roundtrip`, `response_roundtrip_chunked`), composed of C18 (`response_line_roundtrip`), C08 (`compose_parse_roundtrip`), C05/C14 (`chunkFrame`) and the pipeline theorem of C02. Open: the same for requests (the target passes through URI parse, normalisation, the 301 rule and the Host hooks: each link proved or tied separately, the conjunction decided by the oracle) and for content codings inside the whole-message statement.',
 	'C05': 'Idempotence of prepare() is proved for requests and for responses other than to HEAD (`prepareRequest_idem`, `prepareResponse_idem`); the HEAD exception is finding F46. Non-destructiveness of body sources (file positions, generator buffering) is behaviour of Python objects: decided by repeated composition on the real code.',
-	'C06': 'Relies on C11 (`abspath_clean`, `abspath_fixed`). The statement for every stream and fragmentation is `delivered_requests_sanitised` (`Props/C06Invariant.lean`): an invariant of the loop, by induction over the calls. Host and port (the last clause) are proved per hook (`host_from_header`, `defaults_applied`) and, against a later change of the field through a trailer section, by `parseTrailers_host_untouched` (`Props/C06Trailers.lean`, F68 repaired), not yet as one clause of the invariant; what a Host field must look like to get through is `host_alphabet` / `host_no_delimiter` (`Props/C06Host.lean`: an address literal over hex digits, colon, dot - proved through the glibc `inet_pton` transcription - or hostname characters; never a URI delimiter, blank or control character), the character class tied to RE_HOSTNAME of the tree by a 256-entry table. A status raised by parse() ends the history (section 6.2).',
+	'C06': 'Relies on C11 (`abspath_clean`, `abspath_fixed`). The statement for every stream and fragmentation is `delivered_requests_sanitised` (`Props/C06Invariant.lean`): an invariant of the loop, by induction over the calls. Host and port (the last clause) are an invariant of the loop as well since `Props/C06HostInvariant.lean` (`delivered_requests_hosted`: the delivered Host field names host and port of the effective URI; the trailer section cannot change the field: `Props/C06Trailers.lean`, F68 repaired); the configured defaults for a request without the field are proved per hook (`defaults_applied`); what a Host field must look like to get through is `host_alphabet` / `host_no_delimiter` (`Props/C06Host.lean`: an address literal over hex digits, colon, dot - proved through the glibc `inet_pton` transcription - or hostname characters; never a URI delimiter, blank or control character), the character class tied to RE_HOSTNAME of the tree by a 256-entry table. A status raised by parse() ends the history (section 6.2).',
 	'C07': 'The HTTP/1.0 + chunked combination is finding F6. The framing clause holds for every stream and fragmentation on both sides (`delivered_messages_framed`, `Props/C07Invariant.lean`); the trailer clause is proved for the merge of a trailer section (`Props/C07Trailers.lean`: `mergeTrailers_only_announced`, `trailer_fields_all_announced`, `framing_fields_untouched`) and for the step of the state machine that reads the section (`parseTrailers_framing_untouched`), for every state and section; at the loop level Content-Length and Transfer-Encoding of a delivered message are already fixed by the invariant, the Trailer field and "announced only" are not restated there (it would need a ghost copy of the header section).',
 	'C08': 'The round-trip clause is a theorem (`compose_parse_roundtrip`, `Proofs/HeadersRoundtrip.lean`) for collections without list-valued fields; those (Set-Cookie, WWW-Authenticate, Proxy-Authenticate) are composed field-specifically and judged by the oracle.',
 	'C09': 'The whole element is a theorem (`element_roundtrip`, `Proofs/ElementRoundtrip.lean`): a value and any number of parameters with pairwise different canonical keys and ASCII values free of double quotes parse back in order; the proof carries quote parity across parameters, so no `;` or `,` inside a quoted value cuts and no parameter merges with its neighbour. The list clause is `list_roundtrip` (split of join gives back the composed elements, each parses to its element). Open as theorems: RFC 2231 continuations and RFC 5987 extended values - tied by correspondence for the four element classes.',
